@@ -106,8 +106,8 @@ func (s *CDX) Serialize(bom *sbom.Document, _ *native.SerializeOptions, _ interf
 		var lfc cdx.Lifecycle
 
 		if dt.Type == nil {
-			lfc.Name = *dt.Name
-			lfc.Description = *dt.Description
+			lfc.Name = dt.GetName()
+			lfc.Description = dt.GetDescription()
 		} else {
 			lfc.Phase, err = sbomTypeToPhase(dt)
 			if err != nil {
@@ -178,10 +178,10 @@ func sbomTypeToPhase(dt *sbom.DocumentType) (cdx.LifecyclePhase, error) {
 	case sbom.DocumentType_DISCOVERY:
 		return cdx.LifecyclePhaseDiscovery, nil
 	case sbom.DocumentType_OTHER:
-		return cdx.LifecyclePhase(strings.ToLower(*dt.Name)), nil
+		return cdx.LifecyclePhase(strings.ToLower(dt.GetName())), nil
 	}
 	// TODO(option): Dont err but assign to type OTHER
-	return "", fmt.Errorf("unknown document type %s", *dt.Name)
+	return "", fmt.Errorf("unknown document type %s", dt.GetName())
 }
 
 // clearAutoRefs
